@@ -412,4 +412,73 @@ def mutants():
             mat = gmat.mat_asformat("{0,1,2}") @ (algmod.u_a * weight)
         return cls.from_numpy(mat=mat, taxa=gmat.taxa, taxa_grp=gmat.taxa_grp, trait=algmod.trait)
     add("revert_D54_mask_zero_only", W, "from_algmod", classmethod(wgebvmat_from_algmod_d54))
+    # ---- the three seeded kinds (seeded/C05-a1..a3) as in-memory mutants ------------------------------------------
+    def calc_uc_mean(vmatfcty, ncross, nprogeny, nself, gmapfn, selection_intensity, pgmat, gmod, xmap):
+        bvmat_obj = gmod.gebv(pgmat)
+        vmat_obj = vmatfcty.from_gmod(gmod=gmod, pgmat=pgmat, ncross=ncross, nprogeny=nprogeny, nself=nself, gmapfn=gmapfn)
+        bvmat = bvmat_obj.unscale()
+        vmat = vmat_obj.mat
+        ucm = numpy.empty((len(xmap), bvmat_obj.ntrait), dtype=float)
+        for i, cconfig in enumerate(xmap):
+            pmean = bvmat[cconfig, :].mean(0)                                       # plain mean of the parents
+            pvar = vmat[tuple(cconfig) + (slice(None),)]
+            ucm[i, :] = pmean + selection_intensity * numpy.sqrt(pvar)
+        return ucm
+    add("uc_progeny_mean_plain_parent_mean", uc.UsefulnessCriterionSelectionProblemMixin, "_calc_uc",
+        staticmethod(calc_uc_mean))
+
+    def pau_phet_or(self, x, *a, **k):
+        pfreq = self.geno[x, :, None].sum(0) / (self.ploidy * len(x))
+        p_ltmajor = pfreq < 1.0
+        p_gtminor = pfreq > 0.0
+        p_het = p_ltmajor | p_gtminor                                              # always true
+        unavail = ~((p_ltmajor & self.tminor) | (p_het & self.thet) | (p_gtminor & self.tmajor))
+        return (self.mkrwt * unavail).sum(0)
+    add("pau_segregating_mask_or", pau.PopulationAlleleUnavailabilitySubsetSelectionProblem, "latentfn", pau_phet_or)
+
+    def evalfn_inplace(self, x, *a, **k):
+        latent = self.latentfn(x, *a, **k)
+        obj = self.obj_trans(x, latent, **self.obj_trans_kwargs)
+        obj *= self.obj_wt                                                        # overwrites `latent` when obj aliases it
+        ineqcv = self.ineqcv_trans(x, latent, **self.ineqcv_trans_kwargs)
+        ineqcv *= self.ineqcv_wt
+        eqcv = self.eqcv_trans(x, latent, **self.eqcv_trans_kwargs)
+        eqcv *= self.eqcv_wt
+        return obj, ineqcv, eqcv
+    add("evalfn_weights_applied_in_place", sp.SelectionProblem, "evalfn", evalfn_inplace)
+
+    gbm = _m("GenotypeBuilderSelectionProblem")
+
+    def gb_latent(self, x, *a, **k):
+        bestphase = self._haplomat[:, x, :, :].max(0)
+        bestphase.sort(0)
+        return -(self.ploidy / self.nbestfndr) * bestphase[0:self.nbestfndr, :, :].sum((0, 1))   # the worst founders
+    add("gb_takes_worst_founders", gbm.GenotypeBuilderSubsetSelectionProblem, "latentfn", gb_latent)
+    la = _m("RealLookAheadGeneralizedWeightedGenomicSelectionProblem")
+
+    def la_latent(self, x, *a, **k):
+        algmod, u_a = self.fndr_algmod, self.fndr_algmod.u_a
+        ploidy = self.fndr_pgmat.ploidy
+        gain = usl = 0.0
+        for _ in range(self.nsimul):
+            pgmat = self.fndr_pgmat.copy()
+            for alpha in x:
+                Z_a = pgmat.mat_asformat("{0,1,2}")
+                fafreq = algmod.fafreq(pgmat)
+                fafreq[fafreq <= 0] = 1
+                wgebv = Z_a.dot(u_a * numpy.power(fafreq, -alpha)).sum(1)
+                sel = wgebv.argsort()[:self.nparent]                                # the worst instead of the best
+                pgmat = self.mtprot.mate(pgmat, sel, self.ncross, self.nprogeny, None)
+            Z_a = pgmat.mat_asformat("{0,1,2}")
+            gain += Z_a.dot(u_a).sum(1).mean()
+            afreq = pgmat.afreq()[:, None]
+            usl += (float(ploidy) * u_a * numpy.where(u_a > 0.0, afreq > 0.0, afreq >= 1.0)).sum()
+        return numpy.array([-gain / self.nsimul, -usl / self.nsimul], dtype=float)
+    add("lookahead_selects_worst", la.RealLookAheadGeneralizedWeightedGenomicSelectionProblem, "latentfn", la_latent)
+
+    def la_latent2(self, x, *a, **k):
+        o = la_orig(self, x, *a, **k)
+        return numpy.array([o[0] * self.nsimul, o[1]])                             # gain not averaged over simulations
+    la_orig = la.RealLookAheadGeneralizedWeightedGenomicSelectionProblem.__dict__["latentfn"]
+    add("lookahead_gain_not_averaged", la.RealLookAheadGeneralizedWeightedGenomicSelectionProblem, "latentfn", la_latent2)
     return out
